@@ -22,17 +22,25 @@ FieldOpts(f, Z) == (IF "alias" \in Z THEN << <<"alias", AliasName(f, "alias")>> 
 CfgAliases(Sa, Sb) == (IF "cfg" \in Sa THEN << <<"a", "a_cfg">> >> ELSE <<>>) \o (IF "cfg" \in Sb THEN << <<"b", "b_cfg">> >> ELSE <<>>)
 
 \* field a is typed int (converted) or Any (passed through untouched: a different code path reads the key)
+\* shadow: "none" | "plain" (a's alias is b's NAME, b unaliased) | "chain" (a -> "b", b -> "b_alias": b's name is no longer
+\* a key of b but IS the key of a) | "swap" (a -> "b", b -> "a")
+ShadowAliases(shadow) == CASE shadow = "plain" -> << <<"a", "b">> >>
+                           [] shadow = "chain" -> << <<"a", "b">> >>
+                           [] shadow = "swap"  -> << <<"a", "b">>, <<"b", "a">> >>
+                           [] OTHER -> <<>>
 ClassT(Sa, Sb, allow, forbid, shadow, ta) ==
   <<"dc", "K",
     << <<"a", ta, <<"req">>, FieldOpts("a", Sa)>>,
        <<"b", <<"int">>, <<"val", I(0)>>, FieldOpts("b", Sb)>> >>,
-    (IF CfgAliases(Sa, Sb) # <<>> \/ shadow THEN << <<"aliases", IF shadow THEN << <<"a", "b">> >> ELSE CfgAliases(Sa, Sb)>> >> ELSE <<>>)
+    (IF CfgAliases(Sa, Sb) # <<>> \/ shadow # "none" THEN << <<"aliases", IF shadow # "none" THEN ShadowAliases(shadow) ELSE CfgAliases(Sa, Sb)>> >> ELSE <<>>)
     \o (IF allow THEN << <<"allow_deserialization_not_by_alias", TRUE>> >> ELSE <<>>)
     \o (IF forbid THEN << <<"forbid_extra_keys", TRUE>> >> ELSE <<>>) >>
 
 Class(Sa, Sb, allow, forbid, shadow) == ClassT(Sa, Sb, allow, forbid, shadow, <<"int">>)
-Classes == { ClassT(Sa, Sb, al, fo, FALSE, ta) : Sa \in SUBSET Srcs, Sb \in SUBSET {"alias", "cfg"}, al \in BOOLEAN, fo \in BOOLEAN, ta \in { <<"int">>, <<"any">> } }
-           \cup { Class({}, {}, al, fo, TRUE) : al \in BOOLEAN, fo \in BOOLEAN }     \* a's alias shadows b's name
+Classes == { ClassT(Sa, Sb, al, fo, "none", ta) : Sa \in SUBSET Srcs, Sb \in SUBSET {"alias", "cfg"}, al \in BOOLEAN, fo \in BOOLEAN, ta \in { <<"int">>, <<"any">> } }
+           \cup { Class({}, {}, al, fo, "plain") : al \in BOOLEAN, fo \in BOOLEAN }     \* a's alias shadows b's name
+           \cup { ClassT({}, {"alias"}, al, fo, "chain", ta) : al \in BOOLEAN, fo \in BOOLEAN, ta \in { <<"int">>, <<"any">> } }
+           \cup { ClassT({}, {}, al, fo, "swap", ta) : al \in BOOLEAN, fo \in BOOLEAN, ta \in { <<"int">>, <<"any">> } }
 
 InputFor(K) == LET idx == SelectSeq([i \in DOMAIN Candidates |-> i], LAMBDA i : i \in K) IN
                Dct([n \in DOMAIN idx |-> <<S(Candidates[idx[n]]), KeyVal(idx[n])>>])
